@@ -11,6 +11,8 @@ package bexpr
 //go:generate goimports -w grammar/grammar.go
 
 import (
+	"regexp"
+
 	"github.com/hashicorp/go-bexpr/grammar"
 	"github.com/mitchellh/pointerstructure"
 )
@@ -46,6 +48,11 @@ func CreateEvaluator(expression string, opts ...Option) (*Evaluator, error) {
 		return nil, err
 	}
 
+	// Compile the regular expressions of matches / not matches now, so that
+	// Evaluate never writes to the syntax tree and one Evaluator can be used
+	// by several goroutines at once.
+	precompileRegexps(ast.(grammar.Expression))
+
 	eval := &Evaluator{
 		ast:                     ast.(grammar.Expression),
 		tagName:                 parsedOpts.withTagName,
@@ -55,6 +62,30 @@ func CreateEvaluator(expression string, opts ...Option) (*Evaluator, error) {
 	}
 
 	return eval, nil
+}
+
+// precompileRegexps walks the syntax tree and caches the compiled form of
+// every regular expression literal. A pattern that does not compile is left
+// alone: evaluating it reports the error, as before.
+func precompileRegexps(ast grammar.Expression) {
+	switch node := ast.(type) {
+	case *grammar.UnaryExpression:
+		precompileRegexps(node.Operand)
+	case *grammar.BinaryExpression:
+		precompileRegexps(node.Left)
+		precompileRegexps(node.Right)
+	case *grammar.CollectionExpression:
+		precompileRegexps(node.Inner)
+	case *grammar.MatchExpression:
+		if node.Value == nil {
+			return
+		}
+		if node.Operator == grammar.MatchMatches || node.Operator == grammar.MatchNotMatches {
+			if re, err := regexp.Compile(node.Value.Raw); err == nil {
+				node.Value.Converted = re
+			}
+		}
+	}
 }
 
 // Evaluate attempts to match the configured expression against the supplied datum.
